@@ -49,6 +49,17 @@ fn tss_in_table(r: &mut Rep, case: &str, lo: u64, hi: u64) {
         let mut b = GlobalDescriptorTable::<8>::from_raw_entries(&[0, DescriptorFlags::KERNEL_CODE64.bits(), lo, hi]);
         let mut out = vec![(sel.index() as usize, a.entries().iter().map(|e| e.raw()).collect::<Vec<u64>>(), a.limit())];
         out.push((2, b.entries().iter().map(|e| e.raw()).collect(), b.limit()));
+        // copies of the table (clone, clone_from over a dirty table, a copied Entry) hold the same 16 bytes
+        let c = a.clone();
+        out.push((2, c.entries().iter().map(|e| e.raw()).collect(), c.limit()));
+        let mut d = GlobalDescriptorTable::<8>::empty();
+        for _ in 0..6 {
+            d.append(Descriptor::UserSegment(u64::MAX));
+        }
+        d.clone_from(&b);
+        out.push((2, d.entries().iter().map(|e| e.raw()).collect(), d.limit()));
+        let e: Vec<u64> = a.entries().iter().map(|e| e.clone().raw()).collect();
+        out.push((2, e, a.limit()));
         a.append(follow);
         b.append(follow);
         out.push((sel.index() as usize, a.entries().iter().map(|e| e.raw()).collect(), a.limit()));
@@ -58,9 +69,9 @@ fn tss_in_table(r: &mut Rep, case: &str, lo: u64, hi: u64) {
     match built {
         Ok(v) => {
             for (k, (idx, words, limit)) in v.into_iter().enumerate() {
-                let want_len = if k < 2 { 4 } else { 5 };
-                if idx != 2 || words.len() != want_len || words[2] != lo || words[3] != hi || limit as usize != 8 * want_len - 1 || (k >= 2 && words[4] != DescriptorFlags::USER_DATA.bits()) {
-                    r.viol("C15|tss_segment|descriptor-in-a-descriptor-table-is-not-the-16-bytes-produced", case, &format!("{} table: index {} words {:x?} limit {}", ["appended", "from-raw-entries", "appended+1", "from-raw-entries+1"][k], idx, words, limit));
+                let want_len = if k < 5 { 4 } else { 5 };
+                if idx != 2 || words.len() != want_len || words[2] != lo || words[3] != hi || limit as usize != 8 * want_len - 1 || (k >= 5 && words[4] != DescriptorFlags::USER_DATA.bits()) {
+                    r.viol("C15|tss_segment|descriptor-in-a-descriptor-table-is-not-the-16-bytes-produced", case, &format!("{} table: index {} words {:x?} limit {}", ["appended", "from-raw-entries", "clone", "clone_from", "entry-wise clone", "appended+1", "from-raw-entries+1"][k], idx, words, limit));
                     break;
                 }
             }
